@@ -59,6 +59,12 @@ open RNum CNum
 /-- left-to-right sum starting from `init` (`matrix += …` in a loop, `np.sum` of a short array) -/
 def sumFrom {α : Type} [RNum α] (init : α) (xs : List α) : α := xs.foldl add init
 
+/-- the only algebraic laws the comparison of translated source with the model relies on: `+` and `*`
+    of the number type commute (true of ℝ, of ℂ and of IEEE doubles; not of the free terms) -/
+class CommNum (α : Type) [RNum α] : Prop where
+  add_comm : ∀ a b : α, RNum.add a b = RNum.add b a
+  mul_comm : ∀ a b : α, RNum.mul a b = RNum.mul b a
+
 /-! ## errors the modelled code raises -/
 
 inductive Err where
@@ -255,6 +261,18 @@ def artifactColumns (order : Nat) (c w t : α) : List α :=
   [artifactGauss c w t] ++ (if order > 1 then [artifactFirst c w t] else []) ++
     (if order > 2 then [artifactSecond c w t] else [])
 
+/-- the stores of `_calculate_coherent_artifact_matrix_on_index` in program order:
+    (column, `some k` = executed only `if order > k`, value) -/
+def artifactStoreTable (c w t : α) : List (Nat × Option Nat × α) :=
+  [(0, none, artifactGauss c w t), (1, some 1, artifactFirst c w t), (2, some 2, artifactSecond c w t)]
+
+/-- the values of the stores that are executed for a given `order`, in program order -/
+def executedStores (order : Nat) (stores : List (Nat × Option Nat × α)) : List (Nat × α) :=
+  stores.filterMap (fun s =>
+    match s.2.1 with
+    | none => some (s.1, s.2.2)
+    | some k => if order > k then some (s.1, s.2.2) else none)
+
 /-- `get_irf_parameter`: `center[0] - shift`, own width or `width[0]`;
     an empty centre / width list is an IndexError (`noIrf` here) -/
 def artifactIrfParameter (irf : Irf α) (ownWidth : Option α) (idx : Option Nat) (axis : List α) :
@@ -336,6 +354,38 @@ def spectralMatrix (inverted : Bool) (scale : α) (shapes : List (String × Shap
     List String × Matrix α :=
   (shapes.map (·.1),
    .flat (shapes.map (fun s => add (ofRat 0) (s.2.calculate (axisConvert inverted scale x)))))
+
+/-- the rows of the spectral matrix on a concrete model axis (any order of the points): row `i` is the
+    column list at `axis[i]` -/
+def spectralMatrixOnAxis (inverted : Bool) (scale : α) (shapes : List (String × Shape α)) (axis : List α) :
+    List (List α) :=
+  axis.map (fun x => shapes.map (fun s => add (ofRat 0) (s.2.calculate (axisConvert inverted scale x))))
+
+/-- first column carrying label `lab` (`clp_labels.index(label)`) -/
+def columnOf (m : List String × List α) (lab : String) : Option α := (m.1.zip m.2).lookup lab
+
+/-- `MatrixProvider.combine_megacomplex_matrices` for two index-independent matrices at one axis point: labels of the
+    left, then the new labels of the right; every column starts from zero and adds the left and the right column of its
+    label (several spectral megacomplexes of one dataset may give a shape to the same compartment: the shapes add up) -/
+def combineFlat (l r : List String × List α) : List String × List α :=
+  let labels := l.1 ++ r.1.filter (fun c => !l.1.contains c)
+  (labels, labels.map (fun lab =>
+    let z : α := match columnOf l lab with
+      | some v => add (ofRat 0) v
+      | none => ofRat 0
+    match columnOf r lab with
+    | some v => add z v
+    | none => z))
+
+/-- `calculate_dataset_matrix` of a dataset whose megacomplexes are all spectral: the first matrix as it is, every
+    further one combined from the left -/
+def spectralDatasetMatrix (inverted : Bool) (scale : α) (megas : List (List (String × Shape α))) (x : α) :
+    List String × List α :=
+  let ms : List (List String × List α) := megas.map (fun sh =>
+    (sh.map (·.1), sh.map (fun s => add (ofRat 0) (s.2.calculate (axisConvert inverted scale x)))))
+  match ms with
+  | [] => ([], [])
+  | m :: rest => rest.foldl combineFlat m
 
 end real
 
@@ -600,6 +650,10 @@ def driverStep (s : Unit) (ts : List Tree) : Unit × String :=
     | [.atom "spectral", inv, sc, shapes] => do
       let r := spectralMatrix (← inv.bool?) (← termOf sc) (← Tree.listOf? parseShape shapes) Term.t
       some (showResult (.ok r))
+    | [.atom "spectralds", inv, sc, megas] => do
+      let r := spectralDatasetMatrix (← inv.bool?) (← termOf sc)
+        (← Tree.listOf? (Tree.listOf? parseShape) megas) Term.t
+      some (showResult (.ok (r.1, .flat r.2)))
     | [.atom "irfpar", irf, idx, gax] => do
       match ← parseIrf irf with
       | none => none
